@@ -1,9 +1,17 @@
 package props
 
 import (
+	"context"
 	"fmt"
+	"io"
 	"runtime"
+	"sync"
+	"sync/atomic"
 	"testing"
+	"time"
+
+	netty "github.com/go-netty/go-netty"
+	"verif/harness/mock"
 
 	"pgregory.net/rapid"
 
@@ -291,17 +299,144 @@ func TestC01(t *testing.T) {
 	})
 }
 
+// runC02Stress: windows without any hook point (e.g. between a failed non-blocking enqueue attempt and the
+// blocking one) are only reachable with real parallelism. Real goroutines and the real executor hammer a tiny
+// queue; afterwards the state (all writers returned, sender idle, queue non-empty) is terminal, so a stranded
+// packet is a fact, not a time-out.
+func runC02Stress(c E1Case) (out core.Outcome) {
+	out.Classes = []string{"stress", "kind:" + c.Kind}
+	for round := 0; round < c.Stress; round++ {
+		tr := mock.NewTransport(nil, c.Buffered, nil)
+		pl := netty.NewPipeline()
+		ex := &countingExec{}
+		ch := netty.NewAsyncWriteChannel(imax(1, c.Queue), c.Kind == "qblock")(1, context.Background(), pl, tr, ex)
+		pl.AddLast(netty.InboundHandlerFunc(func(ctx netty.InboundContext, m netty.Message) {
+			buf := make([]byte, 64)
+			if _, err := m.(io.Reader).Read(buf); err != nil {
+				panic(err)
+			}
+		}), netty.ExceptionHandlerFunc(func(ctx netty.ExceptionContext, ex netty.Exception) {}))
+		pl.ServeChannel(ch)
+		var wg sync.WaitGroup
+		var accepted int64
+		start := make(chan struct{})
+		for w, task := range c.Tasks {
+			wg.Add(1)
+			go func(w int, task E1Task) {
+				defer wg.Done()
+				<-start
+				for i, op := range task.Ops {
+					p := []byte{byte(w), byte(i), 1, 2, 3}
+					var n int64
+					var err error
+					switch op.Op {
+					case "writev", "ctxwritev":
+						n, err = ch.Writev([][]byte{p[:2], p[2:]})
+					default:
+						var k int
+						k, err = ch.Write1(p)
+						n = int64(k)
+					}
+					if err == nil {
+						atomic.AddInt64(&accepted, n)
+					}
+				}
+			}(w, task)
+		}
+		close(start)
+		writersDone := make(chan struct{})
+		go func() { wg.Wait(); close(writersDone) }()
+		stuck := 0
+	waitWriters:
+		for {
+			select {
+			case <-writersDone:
+				break waitWriters
+			case <-time.After(50 * time.Millisecond):
+				// writers still inside their calls: if no sender action is running or submitted, a writer
+				// waiting for queue space can never continue
+				if st, _ := netty.VerifState(ch); atomic.LoadInt64(&ex.senders) == 0 && st.QueueLen >= st.QueueCap {
+					stuck++
+				} else {
+					stuck = 0
+				}
+				if stuck >= 3 {
+					st, _ := netty.VerifState(ch)
+					out.Violation = core.Viol("C02/writer-stuck", "stress round %d: writers are waiting for queue space (%d/%d queued) but no sender action is running or submitted: the queued packets are stranded", round, st.QueueLen, st.QueueCap)
+					return // the channel is not closed: Close would wait for the stranded packets for ever
+				}
+			}
+		}
+		// Every writer has returned. Once no sender action is submitted or running any more, nothing can
+		// change: that state is terminal (the flags alone are not: a sender between releasing the flag and
+		// re-checking the queue looks idle).
+		deadline := time.Now().Add(20 * time.Second)
+		for atomic.LoadInt64(&ex.senders) > 0 {
+			if time.Now().After(deadline) {
+				out.Inconclusive = "stress: a sender action is still running after 20 s"
+				ch.Close(nil)
+				return
+			}
+			time.Sleep(20 * time.Microsecond)
+		}
+		st, _ := netty.VerifState(ch)
+		total, flushed := tr.AcceptedLen()
+		if st.QueueLen > 0 || int64(total) != atomic.LoadInt64(&accepted) || flushed != total {
+			out.Violation = core.Viol("C02/accepted-payload-stranded", "stress round %d: all writers returned (accepted %d bytes) and no sender action is running or submitted, yet %d packets are still queued and the transport holds %d bytes (%d flushed)", round, atomic.LoadInt64(&accepted), st.QueueLen, total, flushed)
+			return // not closed, see above
+		}
+		ch.Close(nil)
+	}
+	out.NonTrivial = true
+	return
+}
+
+// countingExec runs actions on goroutines like the default executor and counts the sender actions
+// (every action but the first, which is the read loop) from submission to completion.
+type countingExec struct {
+	n       int64
+	senders int64
+}
+
+func (e *countingExec) Exec(a netty.Action) {
+	if atomic.AddInt64(&e.n, 1) == 1 {
+		go a()
+		return
+	}
+	atomic.AddInt64(&e.senders, 1)
+	go func() {
+		defer atomic.AddInt64(&e.senders, -1)
+		a()
+	}()
+}
+
 func TestC02(t *testing.T) {
 	core.Main(t, core.Prop[E1Case]{
 		ID: "C02",
 		Gen: func(t *rapid.T) E1Case {
+			if rapid.IntRange(0, 399).Draw(t, "stress") == 237 { // a mid-range value: rapid favours the ends of a range
+				c := E1Case{Kind: rapid.SampledFrom([]string{"qblock", "qblock", "qnonblock"}).Draw(t, "kind"), Queue: rapid.SampledFrom([]int{1, 1, 2}).Draw(t, "queue"), Stress: 400}
+				for w := rapid.IntRange(2, 3).Draw(t, "writers"); w > 0; w-- {
+					task := E1Task{Role: "writer"}
+					for i := rapid.IntRange(5, 20).Draw(t, "calls"); i > 0; i-- {
+						task.Ops = append(task.Ops, E1Op{Op: rapid.SampledFrom([]string{"write1", "writev"}).Draw(t, "entry"), Sizes: []int{5}})
+					}
+					c.Tasks = append(c.Tasks, task)
+				}
+				return c
+			}
 			c := genWritersCase(t, []string{"qblock", "qblock", "qnonblock", "sync"}, false)
 			if c.Kind != "sync" && len(c.Prefix) == 0 && rapid.Bool().Draw(t, "forcedir") {
 				c.Prefix = genReleasePrefix(t, len(c.Tasks))
 			}
 			return c
 		},
-		Run:     func(c E1Case) core.Outcome { return runWriters(c, "C02") },
+		Run: func(c E1Case) core.Outcome {
+			if c.Stress > 0 {
+				return runC02Stress(c)
+			}
+			return runWriters(c, "C02")
+		},
 		Summary: summarizeE1,
 	})
 }
